@@ -449,6 +449,22 @@ def stateSumMatchesBalance (e : Env) (w : World) : Bool :=
   (let bal := w.bank.balance e.mainAddr
    (isZero ints && isZero bal) || (nz ints == nz bal))
 
+/-! ## genesis (types/state.go `State.Validate`, types/genesis.go `GenesisState.Validate`, genesis.go `InitGenesis`) -/
+
+/-- `State.Validate`, with the D36 repair: a non-burn state whose store key would be the burn
+    state's key (empty account id or type) is rejected -/
+def stateValid (s : DState) : Bool :=
+  (if s.burn then s.account.isNone else s.account.isSome) && !isAnyNegative s.remains &&
+  (s.burn || stateKey s ≠ burnStateKey)
+
+/-- `GenesisState.Validate`: every state validates, the states sum to whole coins, the parameters validate -/
+def genesisValid (e : Env) (subs : List SubD) (states : List DState) : Bool :=
+  states.all stateValid && isZero (truncateDecimal (getRemainsSum states)).2 && paramsValid e subs
+
+/-- `InitGenesis`: the burn state's dropped account is restored (D4), every state is written under its key -/
+def initStates (states : List DState) : List DState :=
+  storeStates (states.map fun s => if s.burn && s.account.isNone then { s with account := some { id := "", type := "" } } else s)
+
 /-! ## parameter updates (keeper/msg_server_update_params.go + ValidateBasic) -/
 
 /-- `MsgUpdateParams`: returns the new stored list or none (rejected, nothing changes) -/
